@@ -94,7 +94,8 @@ type Exec struct {
 	inlineAll    int  // >0: bounded lemma: callees are inlined (contracts ignored), loops unrolled up to this bound
 	tolerant     bool // executing package initialisers: unknown calls yield unknown values
 	initBase     int
-	freshBase    *Term // "allocated during the call" threshold while a callee's ensures is being assumed
+	oldState     *State // entry state of the call whose ensures is being evaluated (ghost_old_* accessors)
+	freshBase    *Term  // "allocated during the call" threshold while a callee's ensures is being assumed
 }
 
 func NewExec(prog *ssa.Program, specs *Contracts) *Exec {
@@ -974,6 +975,9 @@ func (e *Exec) implementsCond(i *IfaceV, it *types.Interface) *Term {
 			return False
 		}
 		t := e.tidTypes[int(i.Tid.Val)-1]
+		if t == nil {
+			return False // foreign value of a library-private type (e.g. *errors.errorString): no extra methods assumed
+		}
 		return Bool(types.Implements(t, it))
 	}
 	return App("implements:"+it.String(), SBool, i.Tid)
